@@ -192,6 +192,41 @@ VID = fd({'vid': st.sampled_from(['1', '2', '3', '10']), 'name': TEXT,
                              'original_name': st.one_of(st.none(), TEXT)})
 
 
+class Loopback:
+    """One real grpc.server on 127.0.0.1:<ephemeral> per process, recording what arrives after real transport."""
+    instance = None
+
+    def __init__(self):
+        import concurrent.futures
+        import grpc
+        from deepproto.proto.tracepoint.v1 import tracepoint_pb2_grpc
+        from deepproto.proto.poll.v1 import poll_pb2_grpc
+        self.snapshots = []
+        self.polls = []
+        outer = self
+
+        class Snap(tracepoint_pb2_grpc.SnapshotServiceServicer):
+            def send(self, request, context):
+                outer.snapshots.append((request, [(m.key, m.value) for m in context.invocation_metadata()]))
+                return SnapshotResponse()
+
+        class Poll(poll_pb2_grpc.PollConfigServicer):
+            def poll(self, request, context):
+                outer.polls.append((request, [(m.key, m.value) for m in context.invocation_metadata()]))
+                return PollResponse(ts_nanos=1, current_hash='', response_type=ResponseType.NO_CHANGE)
+        self.server = grpc.server(concurrent.futures.ThreadPoolExecutor(2))
+        tracepoint_pb2_grpc.add_SnapshotServiceServicer_to_server(Snap(), self.server)
+        poll_pb2_grpc.add_PollConfigServicer_to_server(Poll(), self.server)
+        self.port = self.server.add_insecure_port('127.0.0.1:0')
+        self.server.start()
+
+    @classmethod
+    def get(cls):
+        if cls.instance is None:
+            cls.instance = Loopback()
+        return cls.instance
+
+
 class C08(Prop):
     id = 'C08'
     level = 'exploration'
@@ -208,7 +243,7 @@ class C08(Prop):
     thorough_examples = 5000
     fuzz_runs = 8000
     floors = {'collector': 0.25, 'synthetic': 0.25, 'auth': 0.12, 'auth_basic': 0.03, 'sequence_attribute': 0.05,
-              'surrogate_text': 0.03}
+              'surrogate_text': 0.03, 'loopback_transport': 0.03}
 
     def strategy(self, tier):
         kinds = values.SCALAR_KINDS + values.CONTAINER_KINDS + ['bytes', 'badbytes', 'deque', 'slots', 'enum', 'obj', 'obj']
@@ -257,7 +292,11 @@ class C08(Prop):
                 lambda l: [list(t) for t in l]),
             'polls': st.integers(1, 3), 'sends': st.integers(0, 3),
         })
-        return st.one_of(collector, collector, synthetic, synthetic, auth)
+        loopback = fd({'mode': st.just('loopback'), 'inner': synthetic,
+                       'metadata': st.lists(st.tuples(st.sampled_from(['authorization', 'x-api-key']),
+                                                      st.text(alphabet='abcXYZ019 =+/', max_size=8)), max_size=2).map(
+                           lambda l: [list(t) for t in l])})
+        return st.one_of(collector, collector, synthetic, synthetic, auth, auth, loopback)
 
     def run_case(self, recipe):
         lab.reset_world()
@@ -337,10 +376,7 @@ class C08(Prop):
         self.compare(out, snap, 'collector-produced')
         return out
 
-    def case_synthetic(self, r):
-        out = Outcome()
-        out.cls('synthetic')
-
+    def build_synthetic(self, r):
         def mk_vid(d):
             return VariableId(d['vid'], d['name'], list(d['modifiers']), d['original_name'])
         tp = TracePointConfig(r['tp']['id'], r['tp']['path'], r['tp']['line'], dict(r['tp']['args']),
@@ -361,10 +397,67 @@ class C08(Prop):
                 snap.add_watch_result(WatchResult(w['source'], w['expression'], None, w['error']))
         snap.attributes.merge_in(dict(r['attributes']))
         snap.log_msg = r['log_msg']
+        return snap
+
+    def case_synthetic(self, r):
+        out = Outcome()
+        out.cls('synthetic')
+        snap = self.build_synthetic(r)
+        frames = snap.frames
         if any(isinstance(v, list) for v in list(r['attributes'].values()) + list(r['resource'].values())):
             out.cls('sequence_attribute')
         out.nontrivial = bool(frames) and any(v['children'] for v in r['vars'].values()) and bool(r['watches'])
         self.compare(out, snap, 'synthetic')
+        return out
+
+    def case_loopback(self, r):
+        """The same comparison after real HTTP/2 transport to a loopback grpc.server, with a custom auth provider."""
+        out = Outcome()
+        out.cls('loopback_transport')
+        lb = Loopback.get()
+        del lb.snapshots[:]
+        del lb.polls[:]
+        md = [tuple(x) for x in r['metadata']]
+        mod = types.ModuleType('vf_auth_dyn')
+
+        class Prov(AuthProvider):
+            def provide(self):
+                return list(md)
+        mod.Prov = Prov
+        sys.modules['vf_auth_dyn'] = mod
+        cfg = lab.make_cfg({'APP_ROOT': '/app', 'SERVICE_URL': '127.0.0.1:%d' % lb.port, 'SERVICE_SECURE': 'False',
+                            'SERVICE_AUTH_PROVIDER': 'vf_auth_dyn.Prov'})
+        g = GRPCService(cfg)
+        g.start()
+        th = TaskHandler()
+        try:
+            snap = self.build_synthetic(r['inner'])
+            LongPoll(cfg, g).poll()
+            PushService(g, th).push_snapshot(snap)
+            th.flush()
+        except BaseException as e:      # noqa
+            out.violate('loopback: poll / send raised %s' % lab.exc_bucket(e))
+            return out
+        finally:
+            th._pool.shutdown(wait=True)
+            try:
+                g.channel.close()
+            except BaseException:      # noqa
+                pass
+        out.nontrivial = True
+        if len(lb.snapshots) != 1 or len(lb.polls) != 1:
+            out.violate('loopback: the server did not receive exactly one poll and one snapshot',
+                        {'polls': len(lb.polls), 'snapshots': len(lb.snapshots)})
+            return out
+        msg, smd = lb.snapshots[0]
+        d = first_diff(expect(snap), project(msg))
+        if d:
+            out.violate('loopback: field differs after real transport: %s' % field_class(d), {'where': d})
+        for name, got in (('send', smd), ('poll', lb.polls[0][1])):
+            mine = [kv for kv in got if kv[0] in ('authorization', 'x-api-key')]
+            if sorted(mine) != sorted(md):
+                out.violate('loopback: %s arrived without exactly the provider\'s metadata' % name,
+                            {'expected': md, 'got': mine})
         return out
 
     def case_auth(self, r):
